@@ -126,7 +126,10 @@ def run(mod, tier, seed, replay=None):
                 if ri is not None and "panic" in ri:
                     stats["panics"] += 1
                 hist = [{k: v for k, v in x.items() if k not in ("id",)} for x in sh[:ci + 1]]
-                same = core.canon(view(io)) == core.canon(view(mo))
+                if isinstance(io, dict) and "panic" in io and isinstance(mo, dict) and "panic" in mo:
+                    same = True      # both panic (the model predicts the panic; sites/messages are informational)
+                else:
+                    same = core.canon(view(io)) == core.canon(view(mo))
                 try:
                     ds = mod.oracle(c, io, ri)
                 except Exception:
